@@ -7,8 +7,8 @@
 // After every round the harness waits for quiescence (an event: every caller returned, nothing of the scenario inside
 // a hostConnPool / policyConnPool method or a handshake, nothing held at the peer) and then looks: every open socket
 // of the host must be a connection of the REGISTERED, open pool (at most NumConns) — a connection of any other pool
-// object is an orphan; a closed pool holds nothing. After Session.Close nothing may be open and no goroutine may be
-// left inside gocql — except what an addHost that came after policyConnPool.Close() registered (excluded class).
+// object is an orphan; a closed pool holds nothing. After Session.Close nothing may be open, no pool may be registered
+// and no goroutine may be left inside gocql — whatever addHost raced the Close.
 package main
 
 import (
@@ -80,8 +80,7 @@ func (c *cScen) waitQuiet(what string) bool {
 	return false
 }
 
-// look: the monitors at a quiescent point. `afterClose`: Session.Close has returned — what is registered now was
-// registered by an addHost that came after policyConnPool.Close() (returned as late pools / their open sockets).
+// look: the monitors at a quiescent point; returns the open connections of the registered pool.
 func (c *cScen) look() (lateOpen int) {
 	reg := c.registered()
 	c.note(reg)
@@ -407,12 +406,15 @@ func runPipeCLabelled(label string, cseed uint64) string {
 	late := 0
 	quiet := c.waitQuiet("quiescence after Session.Close")
 	regAfter := c.registered()
+	wdEnd := watchdogFull
 	if regAfter != nil {
-		// registered after policyConnPool.Close(): only an addHost that raced Session.Close can have done that
+		// registered after policyConnPool.Close(): only an addHost that raced Session.Close can have done that, and
+		// nothing will close that pool — no point in waiting long for its connections to go away
 		lateAdd = 1
+		wdEnd = time.Second
 	}
 	after := 0
-	patient(watchdogFull, func() bool {
+	patient(wdEnd, func() bool {
 		late = 0
 		if regAfter != nil {
 			for _, nc := range regAfter.NetConns() {
@@ -421,7 +423,7 @@ func runPipeCLabelled(label string, cseed uint64) string {
 				}
 			}
 		}
-		after = openSockets(node) - late
+		after = openSockets(node) // everything counts, the connections of a pool registered inside Session.Close too
 		return after == 0
 	})
 	_ = quiet
@@ -433,10 +435,10 @@ func runPipeCLabelled(label string, cseed uint64) string {
 			c.closedConns = n
 		}
 	}
+	leaked, fns, raw := waitNoGocqlGoroutines(label, wdEnd)
 	if regAfter != nil {
-		regAfter.Close()
+		regAfter.Close() // the harness closes what Session.Close left behind (after the monitors have looked)
 	}
-	leaked, fns, raw := waitNoGocqlGoroutines(label, watchdogFull)
 	if leaked > 0 {
 		atomic.AddInt64(&failures, 1)
 		os.WriteFile(dumpPath("leak", label), []byte(raw), 0o644)
